@@ -25,8 +25,12 @@
  *             constants, float classes and NaN payloads; each at offsets 0..7 in
  *             an exact-size block (ASan red zone directly behind the datum) and
  *             in a block with in-band canaries on both sides
- *   wide      arguments that do not fit the row's width (partial widths): only
- *             "writes nothing outside width/8 octets, returns ptr + width/8"
+ *   wide      arguments of the partial-width setters with bits above the row's
+ *             width set.  Not a value of that width (all unsigned ones, signed
+ *             ones that are not a sign extension): only "writes nothing
+ *             outside width/8 octets" (a setter may store the low octets or
+ *             refuse: the returned address is not demanded).  Sign extensions
+ *             of a W-bit value: octets, returned address, neighbours
  *   swap      reversal and involution, structured + sweeps
  *   inrange   structured boundaries over the whole argument type + sweeps
  *   typed     the datum lives in an object whose declared element type is
@@ -45,7 +49,14 @@
  *   c15_binfmt                       -O2, swap builtins          (all families)
  *   c15_binfmt_o2_portable_swap      -O2, -UUFW_USE_BUILTIN_SWAP (C15_LIGHT)
  *   c15_binfmt_o1_portable_swap      -O1, -UUFW_USE_BUILTIN_SWAP (C15_LIGHT)
- * all with -fsanitize=alignment: "at any alignment" is part of the statement, a
+ *   c15_binfmt_o2_plain              -O2, swap builtins, -fno-sanitize=all
+ *                                    (C15_LIGHT, C15_PLAIN): the sanitizers'
+ *                                    instrumentation keeps the optimiser from
+ *                                    using what type-based alias analysis tells
+ *                                    it (loads are not forwarded / hoisted over
+ *                                    the checks), so the typed-image family only
+ *                                    has its full meaning in a build without it
+ * the first three with -fsanitize=alignment: "at any alignment" is part of the statement, a
  * codec that dereferences a uintNN_t lvalue at an odd address is reported by
  * the sanitizer (attributed to the case in flight as clause memsafe).
  * C15_LIGHT: the 24-bit rows are swept once with the offset rotating with the
@@ -63,10 +74,15 @@
 #else
 #define C15_SWAPS "portable swaps"
 #endif
-#if defined(__OPTIMIZE__) && !defined(C15_O1)
-#define C15_BUILD "-O2, " C15_SWAPS
+#if defined(C15_PLAIN)
+#define C15_SAN ", no sanitizer instrumentation"
 #else
-#define C15_BUILD "-O1, " C15_SWAPS
+#define C15_SAN ""
+#endif
+#if defined(__OPTIMIZE__) && !defined(C15_O1)
+#define C15_BUILD "-O2, " C15_SWAPS C15_SAN
+#else
+#define C15_BUILD "-O1, " C15_SWAPS C15_SAN
 #endif
 
 /* ======================================================================== *
@@ -446,6 +462,23 @@ hex(char *buf, const unsigned char *p, int n)
     return buf;
 }
 
+/* A returned address for a message or the replay log: as an offset from the
+ * datum pointer when it lies inside the block the datum lives in (one past its
+ * end included), in words otherwise -- never an address or a difference of
+ * unrelated addresses (replays must print identical text). */
+static const char *
+retdesc(char *buf, size_t n, const void *ret, const void *blk, size_t total, const void *p)
+{
+    const unsigned char *r = ret, *b = blk;
+    if (ret == NULL)
+        snprintf(buf, n, "NULL");
+    else if (r >= b && r <= b + total)
+        snprintf(buf, n, "ptr%+lld", (long long)(r - (const unsigned char *)p));
+    else
+        snprintf(buf, n, "an address outside the block");
+    return buf;
+}
+
 static const char *
 load_clause(const struct row *r)
 {
@@ -475,8 +508,9 @@ store_load(const struct row *r, uint64_t v, int off)
         return false;
     }
     if (ret != (void *)(p + nb)) {
-        mc_fail("C15/returns-past-end", "%s(ptr+%d, 0x%llx) returned ptr%+lld, expected ptr+%d", r->setname, off,
-                (unsigned long long)arg, (long long)((unsigned char *)ret - blk), off + nb);
+        char rd[48];
+        mc_fail("C15/returns-past-end", "%s(ptr, 0x%llx) with ptr = block+%d returned %s, expected ptr+%d", r->setname,
+                (unsigned long long)arg, off, retdesc(rd, sizeof rd, ret, blk, (size_t)(off + nb), p), nb);
         return false;
     }
     for (int j = 0; j < off; ++j)
@@ -507,7 +541,8 @@ store_load(const struct row *r, uint64_t v, int off)
 
 /* The same store in a block with canaries on both sides. */
 static bool
-store_padded(const struct row *r, uint64_t arg, int off, const unsigned char *exp /* NULL: content not demanded */)
+store_padded(const struct row *r, uint64_t arg, int off, const unsigned char *exp /* NULL: content not demanded */,
+             bool fits /* false: the argument is not a value of the row's width, only the neighbours are demanded */)
 {
     const int nb = r->width / 8;
     unsigned char *blk = pblk[nb][off];
@@ -519,9 +554,9 @@ store_padded(const struct row *r, uint64_t arg, int off, const unsigned char *ex
         for (int j = 0; j < nb; ++j)
             p[j] = (unsigned char)~exp[j];
     void *ret = r->set(p, arg);
-    char h1[32], h2[32];
-    mc_log("%s(ptr+%d, 0x%llx): datum [%s] returned ptr+%lld", r->setname, off, (unsigned long long)arg,
-           hex(h1, p, nb), (long long)((unsigned char *)ret - p));
+    char h1[32], h2[32], rd[48];
+    mc_log("%s(ptr, 0x%llx) with ptr = block+%d: datum [%s] returned %s", r->setname, (unsigned long long)arg, PAD + off,
+           hex(h1, p, nb), retdesc(rd, sizeof rd, ret, blk, total, p));
     for (size_t i = 0; i < total; ++i) {
         if (i >= (size_t)(PAD + off) && i < (size_t)(PAD + off + nb))
             continue;
@@ -531,9 +566,11 @@ store_padded(const struct row *r, uint64_t arg, int off, const unsigned char *ex
             return false;
         }
     }
+    if (!fits)
+        return true; /* the statement speaks of storing a value of that width: a setter may refuse anything else */
     if (ret != (void *)(p + nb)) {
-        mc_fail("C15/returns-past-end", "%s(ptr+%d, 0x%llx) returned ptr%+lld, expected ptr+%d", r->setname, off,
-                (unsigned long long)arg, (long long)((unsigned char *)ret - p), nb);
+        mc_fail("C15/returns-past-end", "%s(ptr, 0x%llx) with ptr = block+%d returned %s, expected ptr+%d", r->setname,
+                (unsigned long long)arg, PAD + off, retdesc(rd, sizeof rd, ret, blk, total, p), nb);
         return false;
     }
     if (exp != NULL && memcmp(p, exp, (size_t)nb) != 0) {
@@ -690,7 +727,7 @@ family_value(void)
             for (int off = 0; off < 8; ++off) {
                 if (!store_load(r, v, off))
                     break;
-                if (!store_padded(r, canon(r, v), off, exp))
+                if (!store_padded(r, canon(r, v), off, exp, true))
                     break;
             }
             mc_trans(8 * 4);
@@ -889,9 +926,10 @@ typed_one(int ri, int ei, uint64_t v, int off)
             return false;
         }
         if (st.ret != (void *)((unsigned char *)p + nb)) {
-            mc_fail("C15/returns-past-end", "%s(image+%d, 0x%llx) in a %s image returned ptr%+lld, expected ptr+%d",
-                    r->setname, TDAT + off, (unsigned long long)arg, tnames[ei],
-                    (long long)((unsigned char *)st.ret - (unsigned char *)p), nb);
+            char rd[48];
+            mc_fail("C15/returns-past-end", "%s(ptr, 0x%llx) with ptr = image+%d in a %s image returned %s, expected ptr+%d",
+                    r->setname, (unsigned long long)arg, TDAT + off, tnames[ei],
+                    retdesc(rd, sizeof rd, st.ret, img, TIMG, p), nb);
             return false;
         }
         typed_read(ei, cur);
@@ -1077,33 +1115,44 @@ family_wide(void)
                 const uint64_t a = lows[li] | (highs[hi] << W);
                 /* hand it over as the C argument the wrapper will form */
                 const uint64_t arg = (r->kind == KIND_s) ? sext(a, B) : a;
-                if (!mc_case("wide fn=%s argument=0x%0*llx (does not fit %d bits unless it is a sign extension) offsets=0..7",
-                             r->setname, B / 4, (unsigned long long)a, W))
+                /* A signed argument whose upper bits repeat bit W-1 is a value of
+                 * the row's width (its sign extension): the whole statement
+                 * applies.  Any other argument is not "a value of that width":
+                 * a setter may store its low octets or refuse it (return
+                 * anything, write nothing); only "leaves neighbouring octets
+                 * untouched" and memory safety are demanded. */
+                const bool fits = representable(a, B, W, r->kind);
+                if (!mc_case("wide fn=%s argument=0x%0*llx (%s %d bits) offsets=0..7", r->setname, B / 4,
+                             (unsigned long long)a, fits ? "the sign extension of a value of" : "does not fit", W))
                     continue;
+                unsigned char exp[8];
+                encode(exp, a & m, W, row_big(r));
                 for (int off = 0; off < 8; ++off) {
-                    if (!store_padded(r, arg, off, NULL))
+                    if (!store_padded(r, arg, off, fits ? exp : NULL, fits))
                         break;
                     /* and once directly in front of an ASan red zone */
-                    unsigned char *p = wblk[nb][off] + off;
+                    unsigned char *blk = wblk[nb][off], *p = blk + off;
                     void *ret = r->set(p, arg);
-                    if (ret != (void *)(p + nb)) {
-                        mc_fail("C15/returns-past-end", "%s(ptr+%d, 0x%llx) did not return ptr+%d", r->setname, off,
-                                (unsigned long long)arg, off + nb);
+                    if (fits && ret != (void *)(p + nb)) {
+                        char rd[48];
+                        mc_fail("C15/returns-past-end", "%s(ptr, 0x%llx) with ptr = block+%d returned %s, expected ptr+%d",
+                                r->setname, (unsigned long long)arg, off,
+                                retdesc(rd, sizeof rd, ret, blk, (size_t)(off + nb), p), nb);
                         break;
                     }
                     bool bad = false;
                     for (int j = 0; j < off && !bad; ++j)
-                        if (wblk[nb][off][j] != canary((size_t)j)) {
+                        if (blk[j] != canary((size_t)j)) {
                             mc_fail("C15/neighbours-untouched", "%s(ptr+%d, 0x%llx) changed an octet before the datum",
                                     r->setname, off, (unsigned long long)arg);
-                            wblk[nb][off][j] = canary((size_t)j);
+                            blk[j] = canary((size_t)j);
                             bad = true;
                         }
                     if (bad)
                         break;
                 }
                 mc_trans(16);
-                mc_end(true, "wide-argument");
+                mc_end(true, fits ? "wide-sign-extension" : "wide-argument");
             }
     }
 }
